@@ -40,7 +40,7 @@ theorem call_frame {P : Program} (hck : check P = true) {g : Nat} {fd : FunDecl}
     h'.obj id = h.obj id := by
   obtain ⟨s', hs'⟩ := checked_of_check hck g fd hg
   have post := sound_stmt (checked_of_check hck) hex fd.sum h.next vals _ s' hs' (Nat.le_refl _) hv hw
-    (wfenv_entry_vals _ hv) (entry_rel _ _ _ _ _)
+    (wfenv_entry_vals _ hv) (entry_rel _ _ _ (oldclosed_of_wf hw))
   refine post.frame id hid ?_
   rintro ⟨i, hi, heq⟩
   have hs := specOk_of_check hck hg
